@@ -26,6 +26,7 @@ def run(project, rep):
     rep.run(Q.q_r5_trnuid, project, schema, rep)
     rep.run(Q.q_r6_serialize, project, rep)
     rep.run(Q.q_r7_pipeline, project, rep)
+    rep.run(Q.q_r10_builders_keep_no_state, project, rep)
     from .. import rules_wire as W
     rep.run(W.l_r2_escaping, project, rep)
     rep.run(W.l_r2_escaping, project, rep, rule="W-R3", reader_decodable=True)
